@@ -154,6 +154,10 @@ def run(ctx):
             where = "%s:%s" % (h.fc.fn.file, getattr(h.expr, "lineno", "?"))
             key = "%s:%s@%s%s" % (h.fc.fn.qualname, h.src, S.pfx(mk.elem) if mk.elem else "?",
                                   ("/@" + mk.attr.split("}")[-1]) if mk.attr else "/text()")
+            if h.why in ("format", "format-splat", "percent", "percent-map"):
+                # the hole stands for a whole sub-template the evaluator could not interpret: nothing is known about it
+                ctx.error(key, "template construct not interpreted (%s): the text it produces is not analysed" % h.why)
+                continue
             verdict, labels, wit = classify(prov, mk)
             base = h.src.split(".")[-1].split("(")[0]
             why_num = contract_numeric(prog, h) if verdict != "safe" else None
